@@ -263,6 +263,15 @@ def replay(record: dict, *, nt=None, stop_at_first=True, collect_counts=False):
     """Execute a record {cfg, ops}.  -> (RunLog, World)"""
     cfg = record["cfg"]
     w = new_world(cfg, nt)
+    try:
+        return _replay_body(record, w, cfg, stop_at_first, collect_counts)
+    finally:
+        from .ops_store import cleanup_world
+
+        cleanup_world(w)
+
+
+def _replay_body(record, w, cfg, stop_at_first, collect_counts):
     probes = default_probes(cfg)
     log = RunLog()
     for idx, op in enumerate(record["ops"]):
@@ -276,7 +285,4 @@ def replay(record: dict, *, nt=None, stop_at_first=True, collect_counts=False):
                 log.violations.append((idx, v))
             if stop_at_first:
                 break
-    from .ops_store import cleanup_world
-
-    cleanup_world(w)
     return log, w
